@@ -37,7 +37,7 @@ SIZES = {
     "C14": {"quick": (5000, 9000), "thorough": (50000, 250000)},
     "C09": {"quick": (4000, 9000), "thorough": (40000, 200000)},
     "C10": {"quick": (4000, 9000), "thorough": (40000, 200000)},
-    "C17": {"quick": (4000, 6000), "thorough": (40000, 160000)},
+    "C17": {"quick": (4000, 10000), "thorough": (40000, 160000)},
     "C19": {"quick": (3000, 9000), "thorough": (30000, 200000)},
     "C16": {"quick": (200, 1600), "thorough": (2000, 30000)},
 }
